@@ -334,6 +334,32 @@ theorem sync_within_limit (cfg : Cfg) (ids : Nat → Int) (elements : List PV) (
       have := bundle_le_pred hb hac (calcBndl_snoc elements _ n 16 hn (calcElem_sync _))
       omega
 
+/-- `SynthDef._do_send`: when `/d_recv` is chosen — the predicted size of the WHOLE message, completion
+    message included, is within the limit — the datagram really is within the UDP limit -/
+theorem d_recv_within_limit (cfg : Cfg) (defBytes : Bytes) (completion : PV) (d : Bytes)
+    (hfit : doSendFits defBytes completion = .ok true)
+    (hb : buildMsgL cfg (dRecvMsg defBytes completion) = .ok d) (ha : asciiA completion = true) :
+    d.length ≤ maxUdpDgramSize := by
+  have hasc : asciiL (dRecvMsg defBytes completion) = true := by
+    simp [dRecvMsg, asciiL, asciiAll, asciiA, isAscii, ha]
+  obtain ⟨n, hn, hle⟩ := predict_ge_real_msg cfg _ d hb hasc
+  unfold doSendFits at hfit
+  rw [hn] at hfit
+  simp at hfit
+  omega
+
+/-- `BundleNetAddr` (`server.bind()`): over any sequence of `send_msg` / `send_bundle` /
+    `send_clumped_bundles` / `sync` inside the `with` block, what is handed to
+    `send_clumped_bundles` by the syncs and by `__exit__` is exactly the collected elements, each
+    once and in order (with `clump_concat` / `send_clumped_within_limit` for each hand-over) -/
+theorem bundle_netaddr_carries_all (ops : List BOp) :
+    clumpedOf ((BNA.init.run ops).2 ++ (BNA.init.run ops).1.exit) = collected ops := by
+  have h := bna_run ops BNA.init ⟨by simp [BNA.init], by simp [BNA.init]⟩
+  rw [clumpedOf_append]
+  unfold BNA.exit
+  rw [clumpedOf_sendPending, h.1]
+  simp [BNA.pending, BNA.init]
+
 /-! ## Decoder totality -/
 
 /-- `decodePacket` is a total function on byte strings (accepted by Lean without fuel: the bundle
